@@ -18,11 +18,11 @@ CHECKS = {
     "C06": ("msched", "model_checking", "6/C06", "All schedules of kill() (once, twice, erased, followed by a send) against mailbox contents 0..cap+1, every actor phase, concurrent stop/drop, for several tokio select seeds; oracle: kill returns Ok in the step it started, at most one further handler, no on_run progress, on_stop(true), killed result, leftover sends fail."),
     "C07": ("msched", "model_checking", "6/C07", "All handle histories of length <=3 (4) over clone/drop/downgrade/upgrade/erase/clone_boxed/send by one client with a second client keeping, dropping or stopping; reference counts are tracked by the harness from its own slot events; oracle at global quiescence: ended iff stopped or unreferenced; a probe ask through a remaining handle is answered."),
     "C08": ("msched", "model_checking", "6/C08", "All schedules of on_run scripts (<=3 invocations, yields/sleeps, Ok(true)/Ok(false)/Err) against message traffic, stop and kill; on_run's first instruction runs in the poll that select! grants it, so a mis-ordered or unbiased select is visible; oracle: zero accepted-but-untaken messages whenever on_run progresses, Ok(false) final, Ok(true) re-armed, Err -> on_stop(false) + Failed."),
-    "C09": ("c09", "model_checking", "6/C09", "All schedules of cap+2 tells (+stop) from 1-3 clients against capacities 1-3 and the spawn() default with a parked actor; oracle: harness-side occupancy never exceeds the capacity, a sender that is still blocked at a quiescent point implies no free slot, tells to a live actor never fail; capacity 0 panics. Configuration clause (procenum): every call sequence of length <=3 (4) over {set(0), set(1), set(2), set(5), spawn-and-measure, spawn_with_capacity(0)}, one fresh process each, compared with a reference model Option<usize>; spawn-and-measure counts how many tells complete against an actor parked in on_start."),
+    "C09": ("c09", "model_checking", "6/C09", "All schedules of cap+2 tells (+stop) from 1-3 clients against capacities 1-3 and the spawn() default with a parked actor; oracle: harness-side occupancy never exceeds the capacity, a sender that is still blocked at a quiescent point implies no free slot, tells to a live actor never fail; capacity 0 panics. Configuration clause (procenum): every call sequence of length <=3 (4) over {set(0), set(1), set(2), set(5), spawn-and-measure, spawn_with_capacity(0), spawn_with_capacity(3)-and-measure}, one fresh process each, compared with a reference model Option<usize>; spawn-and-measure counts how many tells complete against an actor parked in on_start."),
     "C10": ("msched", "model_checking", "6/C10", "Whole schedule tree under a virtual clock for every timeout value x natural completion time x mailbox state x actor death; oracle: Timeout exactly at the deadline and only if completion was not strictly earlier, Ok at the instant of completion, other errors at the instant they arise, is_retryable <=> Timeout."),
     "C11": ("msched", "model_checking", "6/C11", "All schedules of derivation chains over every handle kind with identity/is_alive/upgrade probes at every lifecycle point and after every termination cause; oracle: identity equals the spawn's, ids distinct, is_alive true before the end begins / false after join, upgrade agrees with harness-side reference bounds."),
     "C13": ("msched", "model_checking", "6/C13", "All schedules of every pair of tell/ask-family operations against an actor in each lifecycle state (live, parked, full, stopping, dead by four causes), direct and erased, build with test-utils; oracle: exactly one dead letter with matching reason/target/type/operation per failure, none per success, counter delta = failures."),
-    "C17": ("bthreads", "exploration", "6/C17", "Operation-level exhaustive, thread-level free-running: every order of the operations of 2-4 callers (plain threads, spawn_blocking tasks, async tasks calling the timeout variants, async senders, gate openings, stop/kill) in 10 (11) scenarios - gated handler with capacity 1, timeouts against a full mailbox and a silent actor, actor stopped/killed under blocking callers, deprecated aliases, calls from inside the runtime, extreme timeout values, a bounded ask that gives up before the actor dies - is run on the real code with real OS threads (build with test-utils); oracle: at most once, failed sends never handled, accepted ones handled, reply integrity, order of handling vs. observed completion and per-thread program order, Timeout never early and back by deadline + 2 s, aliases never time out, no panic, one dead letter per failed delivery. A violation must recur when the same order is run again."),
+    "C17": ("bthreads", "exploration", "6/C17", "Operation-level exhaustive, thread-level free-running: every order of the operations of 2-4 callers (plain threads, spawn_blocking tasks, async tasks calling the timeout variants, async senders, gate openings, stop/kill) in 19 (20) scenarios - gated handler with capacity 1, timeouts against a full mailbox and a silent actor, actor stopped/killed under blocking callers, deprecated aliases, calls from inside the runtime, extreme timeout values, a bounded ask that gives up before the actor dies - handler panics under parked callers and under a waiting asker, a long next to a short deadline, callers inside a current-thread runtime - is run on the real code with real OS threads (build with test-utils); oracle: at most once, failed sends never handled, accepted ones handled, reply integrity, order of handling vs. observed completion and per-thread program order, Timeout never early and back by deadline + 0.8 s, aliases never time out, no panic, one dead letter per failed delivery naming target, message type and a reason matching the error, on_tell_result exactly once after a tell and never after an ask. A violation must recur when the same order is run again."),
     "C19": ("c19", "model_checking", "6/C19", "Two exhaustive parts. (a) Bounded-exhaustive program enumeration: all 420 programs of the grammar actor shape x return-type spelling x #[handler] option x message genericity/extra methods (each with a no_log and a plain Result neighbour handler) are compiled against the real macros; the 180 that an independent decision table (tools/gen_corpus.py, written from the documentation) says must compile are run for tell/ask x Ok/Err and compared with the table (Reply type equality, ask value, exactly one error log naming actor+message iff the table says so, never after ask, derive(Actor) infallible and on_start = identity); the 240 invalid combinations must be rejected, with the documented diagnostic where the macro itself diagnoses. (b) msched: all schedules of the C01 scenario family plus Result-returning messages with a hand-written on_tell_result: exactly once after a tell with the handler's value, never after an ask - including asks whose caller gave up."),
     "C12": ("msched2", "model_checking", "6/C12", "All schedules (bound 2/3, capped per scenario) of a three-actor system (victim V, peers P and Q exchanging asks with V and with each other, two clients) with a crash injected at every hook of V - on_start panic/error, three different handlers, first and second on_run (panic and error), on_stop panic/error - and, in the all-features build, a provoked deadlock-detection panic (self-ask, and a genuine cycle with a peer); run on the all-features build and on the default build; oracle: the victim's JoinHandle reports the panic/failure, no on_stop after a panic, its senders get errors, the C01-C05/C08/C11 oracles hold for every surviving actor, dead-letter accounting is exact (C13 oracle), follow-up asks between survivors and to a freshly spawned actor succeed, ids advance, the wait-for graph is empty and its lock not poisoned."),
     "C14": ("msched", "model_checking", "6/C14", "Whole schedule tree (quick bound 3, in practice exhaustive) of ask rings of length 1-3 (4 thorough) whose edges are issued from every hook (on_start, handler, on_run, on_stop) and with every ask flavour (ask, ask_with_timeout, erased AskHandler), each edge with its own trigger so that the schedule decides the creation order, plus nested chains; build with deadlock-detection; oracle: an ask that closes a cycle of unanswered in-flight asks (harness-side relation) panics at once with a message naming every actor of the cycle, nobody is left waiting at global quiescence, the wait-for graph (hook H1) contains the edge of every blocked asker."),
@@ -33,6 +33,23 @@ CHECKS = {
 }
 
 PROPS = [json.loads(l) for l in open(os.path.join(ROOT, "properties.jsonl"))]
+
+BT = "; plus exhaustive enumeration of operation-level orders of real OS threads (bthreads) for the blocking_* forms"
+TECH = {
+    "C01": MSCHED_TECH + BT,
+    "C02": MSCHED_TECH + BT,
+    "C05": MSCHED_TECH + "; plus exhaustive enumeration of all 18 ActorResult shapes",
+    "C09": MSCHED_TECH + BT + "; plus exhaustive enumeration of call sequences (one fresh process each) against a reference model",
+    "C10": MSCHED_TECH + " under a virtual clock" + BT + "; plus exhaustive enumeration of the Error variants",
+    "C11": MSCHED_TECH + " (decides); a sampling multi-thread stress run is reported alongside, labelled non-deciding",
+    "C12": MSCHED_TECH + ", on two builds" + BT,
+    "C13": MSCHED_TECH + BT + " (decide); a sampling multi-thread stress run of the counter is reported alongside, labelled non-deciding",
+    "C14": MSCHED_TECH + "; plus exhaustive enumeration of all acyclic functional graphs with <= 5 (6) nodes for the wait-for walk",
+    "C16": "differential stateless model checking: the whole schedule tree of a direct program and of each type-erased variant, same schedule => same observable trace" + BT,
+    "C17": "exhaustive enumeration of operation-level orders of real OS threads driving the blocking API of the real code (thread timing inside one operation is free-running)",
+    "C18": "stateless model checking per cargo-feature build: one harness build per feature set explores the same scenarios; per-scenario hash over all (schedule, feature-neutral trace) pairs compared with the default build",
+    "C19": "bounded-exhaustive enumeration of macro input programs compiled against the real macros and compared with an independent decision table; " + MSCHED_TECH + BT,
+}
 
 checks = []
 for pid, (engine, cat, ref, text) in sorted(CHECKS.items()):
@@ -45,7 +62,7 @@ for pid, (engine, cat, ref, text) in sorted(CHECKS.items()):
         "engine": engine,
         "level_claimed": {"category": cat, "text": text, "design_ref": "DESIGN.md section " + ref},
         "level_note": MSCHED_NOTE,
-        "technique": MSCHED_TECH,
+        "technique": TECH.get(pid, MSCHED_TECH),
     })
 
 na = []
